@@ -31,8 +31,8 @@ pub const K_NODEF_TRUNCATE: &str = "repdef/composite-nodef-unraveler-truncates-t
 #[allow(dead_code)]
 pub const K_UNARY16: &str = "repdef/unary16-control-word-exhaustion";
 pub const K_FULLZIP_ZERO_DEF: &str = "fullzip/all-zero-def-levels-control-word-width";
-pub const K_FULLZIP_NULL_STRUCT_LIST: &str = "fullzip/null-struct-and-null-list-below-it";
-pub const K_ALLNULL_NESTED: &str = "all-null-page/nested-lists-without-any-leaf-value";
+pub const K_FULLZIP_NULL_STRUCT_LIST: &str = "fullzip/null-struct-above-list-plus-second-special-level";
+pub const K_ALLNULL_NESTED: &str = "all-null-page/nested-lists-page-without-leaf-value";
 pub const K_FULLZIP_GARBAGE_PAGE: &str = "fullzip/page-with-list-specials-and-bitmap-without-nulls";
 
 #[derive(Clone, Copy, Debug, PartialEq, Eq, Hash)]
@@ -598,39 +598,51 @@ fn cause_fullzip_zero_def(stack: &[Layer], rows: &[V], sh: FileShape) -> bool {
     whole_has_null && pages.iter().any(|p| !p.is_empty() && p.iter().all(row_all_valid))
 }
 
-/// full-zip + a list layer below a struct layer + both a NULL struct and a NULL list below a valid struct
+/// full-zip + a struct layer above a list layer + a NULL struct at that layer + a second kind of special
+/// at a different level at or above the innermost list (a NULL struct at another struct layer, a NULL
+/// list, or an empty list). One special level alone (only NULL structs, or only NULL lists) reads fine.
 fn cause_fullzip_null_struct_list(stack: &[Layer], rows: &[V], sh: FileShape) -> bool {
-    fn scan(v: &V, depth: usize, stack: &[Layer], seen_struct: bool, null_struct: &mut bool, null_list: &mut bool) {
+    // special "levels": 2*depth for a NULL at `depth`, 2*depth+1 for an empty list at `depth`
+    fn scan(v: &V, depth: usize, stack: &[Layer], last_list: usize, levels: &mut std::collections::BTreeSet<usize>, struct_null: &mut bool) {
         match v {
             V::Null | V::NullG => {
-                if depth < stack.len() {
-                    match stack[depth] {
-                        Layer::Struct if stack[depth..].contains(&Layer::List) => *null_struct = true,
-                        Layer::List if seen_struct => *null_list = true,
-                        _ => {}
+                if depth <= last_list {
+                    levels.insert(2 * depth);
+                    if stack[depth] == Layer::Struct {
+                        *struct_null = true;
                     }
                 }
             }
             V::Leaf => {}
-            V::List(xs) => xs.iter().for_each(|x| scan(x, depth + 1, stack, seen_struct, null_struct, null_list)),
-            V::Struct(c) => scan(c, depth + 1, stack, true, null_struct, null_list),
+            V::List(xs) => {
+                if xs.is_empty() {
+                    levels.insert(2 * depth + 1);
+                }
+                xs.iter().for_each(|x| scan(x, depth + 1, stack, last_list, levels, struct_null));
+            }
+            V::Struct(c) => scan(c, depth + 1, stack, last_list, levels, struct_null),
             V::Fsl(_) => {}
         }
     }
-    if !sh.fullzip {
+    let Some(last_list) = stack.iter().rposition(|l| *l == Layer::List) else {
+        return false;
+    };
+    if !sh.fullzip || !stack[..last_list].contains(&Layer::Struct) {
         return false;
     }
-    let (mut ns, mut nl) = (false, false);
+    let mut levels = std::collections::BTreeSet::new();
+    let mut struct_null = false;
     for r in rows {
-        scan(r, 0, stack, false, &mut ns, &mut nl);
+        scan(r, 0, stack, last_list, &mut levels, &mut struct_null);
     }
-    ns && nl
+    struct_null && levels.len() >= 2
 }
 
-/// a column with nested lists (>= 2 list layers on the leaf's path) none of whose pages holds a valid
-/// leaf value (every page uses the all-null layout, which keeps only rep/def levels)
-fn cause_allnull_nested(stack: &[Layer], rows: &[V]) -> bool {
-    stack.iter().filter(|l| **l == Layer::List).count() >= 2 && !rows.is_empty() && flatten(stack, rows)[stack.len()].validity.iter().all(|v| !*v)
+/// a column with nested lists (>= 2 list layers on the leaf's path) with a page that holds no valid leaf
+/// value (that page uses the all-null layout, which keeps only rep/def levels)
+fn cause_allnull_nested(stack: &[Layer], pages: &[&[V]]) -> bool {
+    stack.iter().filter(|l| **l == Layer::List).count() >= 2
+        && pages.iter().any(|rows| !rows.is_empty() && flatten(stack, rows)[stack.len()].validity.iter().all(|v| !*v))
 }
 
 /// classification of a file-level failure by the shape of one leaf column
@@ -659,7 +671,7 @@ pub fn file_cause(stack: &[Layer], rows: &[V], sh: FileShape) -> Option<&'static
             Some(K_FULLZIP_ZERO_DEF)
         } else if cause_fullzip_null_struct_list(stack, rows, sh) {
             Some(K_FULLZIP_NULL_STRUCT_LIST)
-        } else if cause_allnull_nested(stack, rows) {
+        } else if cause_allnull_nested(stack, &halves) {
             Some(K_ALLNULL_NESTED)
         } else {
             None
